@@ -342,6 +342,23 @@ func lzmaWCases(r *core.Run, prop string) []LZWCase {
 			}
 		}
 	}
+	// boundary lattice derived from the configuration (see C01 family (o)), classic writer
+	for _, db := range [][2]int{{4096, 273}, {4096, 4096}, {5000, 300}} {
+		D, B := db[0], db[1]
+		for _, c := range []int{B, D, D + B, D + B + 1, 2*(D+B+1) - 1, 2 * D, 3*(D+B+1) + 272} {
+			for d := -1; d <= 1; d++ {
+				L := c + d
+				for _, k := range []string{"A", "T", "R", "P"} {
+					for m := 0; m < 2; m++ {
+						if m == 1 && k == "A" {
+							continue
+						}
+						add(LZWCase{Cfg: LZCfg{DictCap: D, BufSize: B, Matcher: m, EOS: L%2 == 0, SizeInHeader: L%3 == 0, Size: int64(L)}, Shape: []Seg{{K: k, Seed: 71, B: 'm', N: L}}})
+					}
+				}
+			}
+		}
+	}
 	// configuration histories: an lzma.WriterConfig variable verified with configuration A (Verify
 	// fills defaults in place), then set to configuration B and used; all ordered pairs of a menu
 	{
